@@ -101,7 +101,7 @@ func c10Snapshots(ctx *Ctx, i int, rng *rand.Rand) {
 			linked = "true"
 		}
 	}
-	coq := fmt.Sprintf("{| c10_linked := %s; c10_ops := %s; c10_final_reads := %s |}", linked, cList(ops), cList(finals))
+	coq := fmt.Sprintf("CSnap {| c10_linked := %s; c10_ops := %s; c10_final_reads := %s |}", linked, cList(ops), cList(finals))
 	ctx.Emit(Case{I: i, Kind: "snapshots-" + driverNames[drv], Coq: coq, Desc: map[string]interface{}{"ops": desc}, Monitor: mon})
 }
 
@@ -585,6 +585,12 @@ func runC10(ctx *Ctx) {
 	for c := 0; c < ctx.N(24, 600); c++ {
 		if ctx.Want(k) {
 			c10PoolSnapshots(ctx, k, ctx.Sub(k))
+		}
+		k++
+	}
+	for c := 0; c < ctx.N(60, 1500); c++ {
+		if ctx.Want(k) {
+			c10Traces(ctx, k, ctx.Sub(k))
 		}
 		k++
 	}
